@@ -655,6 +655,9 @@ def run_witness(binpath, w):
                     first = 1 if is_m else 0
                     for k in range(first, len(params)):
                         wrongs = [sample(params[k], True), "None", '"x"']
+                        # values whose printed form is long and full of multi-byte characters, at every alignment: an error
+                        # message that cuts the printed value at a byte offset must not split a character
+                        wrongs += ['(%d, ["%s%s"])' % (j, "xyz"[:j], "\U0001F600" * 40) for j in range(4)] + ['Some(["x%s"])' % ("\u00e9" * 60)]
                         if params[k].strip().startswith("List"):
                             # a list whose static element type is not what it holds at run time
                             wrongs += ['[1, 2].append("x")', '["a"].append(1)', "[None]", "[[]]"]
